@@ -136,6 +136,7 @@ def gen_history(rng, n):
         k = rng.random()
         if k < 0.35: ops.append(("full",))
         elif k < 0.65: ops.append(("partial", rng.choice([0, 1, 2, max(n // 2, 1), max(n - 1, 0), n, 26, 30])))
+        elif k < 0.72: ops.append(("hold", rng.choice([1, 2, max(n // 2, 1)])))      # a read that stays suspended while later reads run
         elif k < 0.78: ops.append(("params",))
         elif k < 0.86: ops.append(("pickle",))
         elif k < 0.93: ops.append(("materialize",))
@@ -169,6 +170,7 @@ def run_pipelines(ctx, n_cases):
             try:
                 envs = build(caller)
                 env = envs[-1]
+                held_iters = []
                 params_seen = None
                 for step, h in enumerate(hist):
                     if h[0] == "full":
@@ -177,6 +179,9 @@ def run_pipelines(ctx, n_cases):
                     elif h[0] == "partial":
                         got = read_all(env, h[1])
                         if got != ref[:h[1]]: ctx.fail(["reread", "partial-read-differs"], "read of %d items at step %d is not the prefix of the reference" % (h[1], step), dict(case, step=step)); break
+                    elif h[0] == "hold":
+                        it = iter(env.read()); got = [canon(i) for i in islice(it, h[1])]; held_iters.append(it)
+                        if got != ref[:h[1]]: ctx.fail(["reread", "partial-read-differs", "overlapping"], "read of %d items at step %d (kept suspended) is not the prefix of the reference" % (h[1], step), dict(case, step=step)); break
                     elif h[0] == "sibling":
                         if len(envs) > 1: read_all(envs[0])
                     elif h[0] == "params":
